@@ -17,8 +17,14 @@ PARTIAL = ('identity is proved unique within a set (C07_identity_in_set); across
 def run(ctx):
     rng = ctx.rng('progs')
     n = 60 if ctx.tier == 'quick' else 700
-    for k in range(n):
-        if k % 4 == 3:
+    nrw = 15 if ctx.tier == 'quick' else 150
+    for k in range(n + nrw):
+        if k >= n:
+            # write, re-originate objects (incl. NO-FORMAT objects with data and frames) and edit values, write again:
+            # the second file must be as consistent as the first
+            prog, _fresh = apistream.rewrite_history(rng)
+            flavor = 'rewrite-with-origin-changes'
+        elif k % 4 == 3:
             prog, naming = apistream.gen_multi_lf(rng, naming='distinct')
             flavor = 'multi-lf'
         else:
